@@ -118,9 +118,17 @@ var FieldDeepEqualContainer = `
 	{{- $idx := "i"}}
 	{{- if eq .Type.Category.String "Map" }}{{$idx = "k"}}{{end}}
 	for {{$idx}}, v := range {{.Target}} {
-		{{$src}} := {{.Source}}[{{$idx}}]
 		{{- $ctx := (.ValCtx.WithTarget "v").WithSource $src}}
+		{{- if eq .Type.Category.String "Map" }}
+		{{$src}}, ok := {{.Source}}[{{$idx}}]
+		if !ok {
+			return false
+		}
 		{{- template "FieldDeepEqual" $ctx}}
+		{{- else}}
+		{{$src}} := {{.Source}}[{{$idx}}]
+		{{- template "FieldDeepEqual" $ctx}}
+		{{- end}}
 	}
 {{- end}}{{/* "FieldDeepEqualContainer" */}}
 `
